@@ -40,4 +40,10 @@ def from_message(message):
         '#VALUE!': VALUE,
         '#GETTING_DATA': DATA
     }
-    return errdict.get(str(message), ERROR)
+    try:
+        code = str(message)
+    except Exception:
+        # called from Parser.parse's handler with whatever a host callback raised: an exception
+        # whose __str__ raises must not escape from there
+        return ERROR
+    return errdict.get(code, ERROR)
